@@ -217,6 +217,93 @@ def links(shape, shard=None, nshards=1):
     return harness
 
 
+# ---- links that live only in a sub-parser (the root parser has none) ---------------------------------------------------
+
+
+def _build_sub():
+    from jsonargparse import ActionConfigFile, ArgumentParser
+
+    root = ArgumentParser(exit_on_error=False, prog="app")
+    root.add_argument("--cfg", action=ActionConfigFile)
+    root.add_argument("--g", type=int, default=0)
+    fit = ArgumentParser(exit_on_error=False)
+    fit.add_argument("--a", type=int, default=1)
+    fit.add_argument("--b", type=int)
+    fit.link_arguments("a", "b")
+    test = ArgumentParser(exit_on_error=False)
+    test.add_argument("--y", type=int, default=2)
+    sc = root.add_subcommands()
+    sc.add_subcommand("fit", fit)
+    sc.add_subcommand("test", test)
+    return root
+
+
+def _sub_once(channel, a, target, named):
+    import json as _json
+
+    from jsonargparse import ArgumentError
+
+    root = _build_sub()
+    sec = {}
+    if a is not None:
+        sec["a"] = a
+    if target is not None:
+        sec["b"] = target
+    obj = {"fit": sec} if sec else {}
+    if named or not sec:
+        obj["subcommand"] = "fit"
+    try:
+        if channel == "object":
+            cfg = root.parse_object(obj)
+        elif channel == "parse_string":
+            cfg = root.parse_string(_json.dumps(obj))
+        elif channel == "cfg_text":
+            cfg = root.parse_args(["--cfg", _json.dumps(obj)])
+        elif channel == "cfg_text_then_name":
+            cfg = root.parse_args(["--cfg", _json.dumps(obj), "fit"])
+        elif channel == "argv":
+            cfg = root.parse_args(["fit"] + ([f"--a={a}"] if a is not None else []) + ([f"--b={target}"] if target is not None else []))
+        else:
+            raise RuntimeError(channel)
+    except ArgumentError:
+        return None
+    want = a if a is not None else 1
+    if "b" not in cfg.fit:
+        return Fail("sublink:target-missing-after-parse", channel=channel, a=a, target=target)
+    if cfg.fit.b != want:
+        return Fail("sublink:target-differs-from-source", channel=channel, a=a, target=target, got=cfg.fit.b)
+    text = root.dump(cfg)
+    if "b:" in text:
+        return Fail("sublink:target-appears-in-dump", channel=channel, text=text)
+    back = root.parse_string(text)
+    if back.fit.get("b") != want:
+        return Fail("sublink:target-not-reconstructed-by-reparse", channel=channel, a=a, target=target, got=back.fit.get("b"))
+    return True
+
+
+def sub_links():
+    _sub_once("object", 5, None, True)
+
+    def harness():
+        channel = S.pick("channel", ["object", "parse_string", "cfg_text", "cfg_text_then_name", "argv"])
+        a = S.pick("a", [None, 5, 1])
+        target = S.pick("target", [None, 99, 5])
+        named = S.flag("subcommand-named")
+        if S.replaying is not None:
+            res = _sub_once(channel, a, target, named)
+        else:
+            from crosshair.tracers import NoTracing
+
+            with NoTracing():
+                res = _sub_once(channel, a, target, named)
+        S.note("accepted" if res is not None else "rejected")
+        if res is True:
+            S.note("targets=1")
+        return res
+
+    return harness
+
+
 def static_checks():
     """Concrete API facts of the statement that have no symbolic dimension; run once natively."""
     from typing import List
@@ -351,6 +438,7 @@ def main(rep, tier):
             if n > 1:
                 kw.update(shard=sh, nshards=n)
             jobs.append(dict(module="c15", func="links", kwargs=kw, timeout=300 if tier == "quick" else 900))
+    jobs.append(dict(module="c15", func="sub_links", kwargs={}, timeout=300))
     results = run_jobs(jobs)
     fails = absorb(rep, results, require_tags=("accepted", "targets=1", "targets=2"))
     rep.bounds["link_shapes"] = SHAPES
@@ -367,11 +455,11 @@ def main(rep, tier):
     groups = {}
     for cls, samples in fails.items():
         for smp in samples:
-            groups.setdefault((cls, smp["kwargs"]["shape"]), []).append(smp)
+            groups.setdefault((cls, smp["kwargs"].get("shape", smp["harness"])), []).append(smp)
     for (cls, shape), samples in groups.items():
         reported = False
         for smp in samples:
-            payload = dict(module="c15", func="links", kwargs=smp["kwargs"], ordered=smp["values"].get("__order__", []))
+            payload = dict(module="c15", func=smp["harness"], kwargs=smp["kwargs"], ordered=smp["values"].get("__order__", []))
             r = run_native("ch", "replay_path", payload)
             vals = dict(shape=shape, info=json.dumps(smp["info"], default=repr))
             if not r.get("reproduced"):
